@@ -545,3 +545,33 @@ def pos_none(a=None, b=0, /, c='d_c'):
   """Positional-only parameters with defaults None and 0."""
   return record('pos_none', {'a': a, 'b': b, 'c': c})
 
+
+class BaseCM(_VObj):
+  """A classmethod inherited by SubCM: SubCM.make and BaseCM.make wrap the same function but are
+  bound to different classes (and build different objects)."""
+
+  def __init__(self, x=None, child=None):
+    self.__vrec__ = record(type(self).__qualname__, {'x': x, 'child': child})
+
+  @classmethod
+  def make(cls, x=None, child=None):
+    return cls(x=x, child=child)
+
+
+class SubCM(BaseCM):
+  pass
+
+
+# module-level constants that are *not* registrable by value (JSON primitives / traversable)
+HALF = 0.5
+ADAM = 'adam'
+PAIR34 = (3, 4)
+
+
+class StrSub(str):
+  pass
+
+
+class TupSub(tuple):
+  pass
+
